@@ -1682,8 +1682,9 @@ static int process_enum(fb_parser_t *P, fb_compound_type_t *ct)
                 if (ct->type.st == fb_long && index.i == INT64_MAX) {
                     /* Not captured by range check. */
                     error_sym(P, sym, "64-bit signed int overflow");
+                } else {
+                    index.i = index.i + 1;
                 }
-                index.i = index.i + 1;
             } else if (index.type == vt_bool && !first) {
                 if (index.b == 1) {
                     error_sym(P, sym, "boolean overflow: cannot enumerate past true");
